@@ -238,6 +238,8 @@ pub fn judge_real(
         }
     } else if exit == Some(0) && matches!(prop, "C05" | "C18" | "C12") {
         rep.violation("expected-error-missing", &format!("model expects error {:?} but exit 0", exp_err), mk());
+    } else if prop == "C18" && exp_err.as_deref().map(|e| e.contains("unknown path")).unwrap_or(false) && !started.is_empty() {
+        rep.violation("unknown-target-but-started", &format!("a command-line name is unknown, yet {:?} were started", started), mk());
     } else if exit != Some(0) && matches!(prop, "C12" | "C18") {
         let so = String::from_utf8_lossy(&out.stdout);
         if !so.contains("n2: error: ") && inv.faults.is_empty() {
@@ -352,6 +354,13 @@ fn general_case(ctx: &Ctx, env: &RealEnv, dir: &std::path::Path, case: u64, seed
                     let t = rng.pick(&outs).clone();
                     inv.targets.push(if rng.chance(1, 2) { respell(&t, &mut rng) } else { t });
                 }
+            }
+        }
+        if prop == "C18" && rng.chance(1, 5) {
+            // a name that occurs nowhere; sometimes in ninja-compat mode (which must not make it acceptable)
+            inv.targets.push(format!("no_such_target_{}", rng.below(1000)));
+            if rng.chance(1, 2) {
+                inv.pre_args = vec!["-d".into(), "ninja_compat".into()];
             }
         }
         let nonphony: Vec<String> = w.proj.steps.iter().filter(|s| !s.phony && s.effect != Effect::Generator).map(|s| s.id.clone()).collect();
